@@ -96,9 +96,33 @@ DataPlan(facts, st, data) ==
       [] st = "p2sh_p2wsh" -> With(facts, "sha256", data, LAMBDA sh : Nested(facts, sh))
       [] OTHER -> Done(NoDest)
 
+\* Output(public_hash = h, script_type = st [, witver = wv]) - what a bare hash and a script type stand for.  wv = -1: the
+\* witness version argument is not given.  ok = FALSE: the size does not fit the type, the request is to be refused
+\* (d then is the template filled in anyway, which is what the deviation payload-length-not-checked produces).
+\* 'p2tr' names every witness program of version >= 1 (the library's convention); without a version it is version 1.
+\* The nested types take the key hash (20 bytes) / script hash (32 bytes) that goes INTO the witness program.
+HashPlan(facts, st, wv, h) ==
+    LET n == Len(h)
+        plain(d, fits) == [need |-> <<>>, d |-> d, ok |-> fits]
+        nest(fits) == IF ~fits THEN plain(Wit(0, h), FALSE)
+                      ELSE LET pl == Nested(facts, h) IN [need |-> pl.need, d |-> pl.d, ok |-> TRUE]
+    IN CASE st = "p2pkh" -> plain(PKH(h), n = 20)
+         [] st = "p2sh" -> plain(SH(h), n = 20)
+         [] st = "p2wpkh" -> plain(Wit(0, h), n = 20)
+         [] st = "p2wsh" -> plain(Wit(0, h), n = 32)
+         [] st = "p2tr" -> LET v == IF wv <= 0 THEN 1 ELSE wv IN plain(Wit(v, h), ValidWit(v, h))
+         [] st = "p2sh_p2wpkh" -> nest(n = 20)
+         [] st = "p2sh_p2wsh" -> nest(n = 32)
+         [] OTHER -> plain(NoDest, FALSE)
+
 Build(r) ==
     CASE r.what = "addr" -> BuildAddr(r.facts, r.x, MkDest(r.dk, r.wv, r.p))
-      [] r.what \in {"key", "data"} ->   \* key: r.p = HASH160(public key r.pub), r.wt / r.ms the key's witness type / multisig flag
+      [] r.what = "hash" ->
+           LET pl == HashPlan(r.facts, r.st, r.wv, r.p) IN
+           IF pl.need # <<>> THEN BOut(pl.need, <<>>, <<>>, "", NoDest)
+           ELSE IF ~pl.ok THEN BOut(<<>>, <<>>, <<>>, "nonstandard", pl.d)
+           ELSE BuildAddr(r.facts, r.x, pl.d)
+      [] r.what \in {"key", "data"} ->   \* data also serves Output(public_key = r.pub, script_type = r.st); key: r.p = HASH160(public key r.pub), r.wt / r.ms the key's witness type / multisig flag
            LET pl == IF r.what = "key" THEN KeyPlan(r.facts, r.wt, r.ms, r.p, r.pub) ELSE DataPlan(r.facts, r.st, r.pub) IN
            IF pl.need # <<>> THEN BOut(pl.need, <<>>, <<>>, "", NoDest) ELSE BuildAddr(r.facts, r.x, pl.d)
       [] r.what = "script" ->       \* script bytes + the checksum facts the judge may need under network r.y
@@ -113,6 +137,19 @@ Build(r) ==
 Ok == [v |-> "ok", dev |-> "", exp |-> <<>>]
 Bad(clause, dev, exp) == [v |-> clause, dev |-> dev, exp |-> exp]
 LegacyFour == {"p2pkh", "p2sh", "p2wpkh", "p2wsh"}
+
+\* every view of the output reports the same address (.address, .address_obj.address, .as_dict()) and paying to the
+\* reported address again gives the script the output carries (script -> address -> script is the identity)
+\* (named deviation bech32-encoder-misreads-odd-size-program, second half: for witness programs whose size is not
+\* 20/32/40 the library's Bech32 encoder gives up, so a view that has to encode the address reports none)
+OddSize(D) == D.k = "wit" /\ Len(D.p) \notin {20, 32, 40}
+ViewsAndRoundTrip(o, D) ==
+    IF o.addr2 # o.addr \/ o.addr3 # o.addr
+    THEN Bad("address-views-differ",
+             IF OddSize(D) /\ o.addr2 \in {<<>>, o.addr} /\ o.addr3 \in {<<>>, o.addr} THEN "bech32-encoder-misreads-odd-size-program" ELSE "",
+             o.addr)
+    ELSE IF o.addr # <<>> /\ (~o.rtok \/ o.rtlock # o.lock) THEN Bad("round-trip-script-address-script", "", o.lock)
+    ELSE Ok
 
 \* ---- named deviation (both directions): payload bytes that read as ASCII hexadecimal text (digits, optionally white
 \* space) are "unhexlified": the code works with the bytes that text denotes (half as many) instead of the payload
@@ -136,10 +173,10 @@ ObjRoutes == {"obj", "obj_data", "parse", "parse_nw", "hdkey", "tx_obj", "tx_hdk
 DevForeignObject(r, a) == /\ r.route \in ObjRoutes /\ a.ok /\ r.obs.ok
                           /\ r.x \in NetworksOf(a) /\ r.obs.lock = Lock(DestFor(a, r.x)) /\ r.obs.addr = r.a0
 \* the payload length is not checked against the requested type: the template is filled with whatever was given
-DevLengthFwd(r) == /\ r.route = "hash" /\ r.obs.ok /\ ~ValidDest(MkDest(r.dk, r.wv, r.p))
+DevLengthFwd(r) == /\ r.route = "hash" /\ r.obs.ok /\ r.a0 = <<>> /\ r.dk # "none"
                    /\ r.obs.lock = LockT(MkDest(r.dk, r.wv, r.p))
 \* script_type p2tr with a public key: HASH160(key) is used as a 20-byte version-1 program
-DevP2trFromKey(r) == r.route = "pubkey" /\ r.st = "p2tr" /\ r.obs.ok /\ r.obs.lock = LockT(Wit(1, r.p))
+DevP2trFromKey(r) == r.route = "pubkey" /\ r.st = "p2tr" /\ r.obs.ok /\ r.obs.lock = LockT(Wit(1, r.h))
 \* Address.parse forgets the witness version: the object re-encodes the program with version 0
 DevParseWitver(r) == /\ r.route \in {"parse", "parse_nw"} /\ r.dk = "wit" /\ r.wv >= 1 /\ r.objok
                      /\ r.oa = SegwitEncode(NetOf(r.x).hrp, 0, r.p)
@@ -156,6 +193,13 @@ DevNestedObject(r, D) == /\ r.route \in ObjRoutes /\ r.ot \in {"p2sh_p2wpkh", "p
                          /\ r.obs.lock = LockT(Wit(0, D.p))
 \* the address object of a key carries an unlocking-script name (sig_pubkey, p2sh_multisig) which Output cannot fill in
 DevKeyObjectRefused(r) == r.route \in {"akey", "tx_akey"} /\ ~r.obs.ok /\ r.ot \in {"sig_pubkey", "p2sh_multisig"}
+
+\* a nested-segwit type asked for with a bare hash / key (script_type p2sh_p2wpkh / p2sh_p2wsh): the output carries the
+\* inner witness program OP_0 <hash given> while it shows the P2SH address
+DevNestedRequest(r, D) == /\ r.route \in {"hash", "pubkey"} /\ r.st \in {"p2sh_p2wpkh", "p2sh_p2wsh"} /\ D.k = "sh"
+                          /\ r.obs.lock = LockT(Wit(0, r.h))
+\* script_type p2wsh with a public key: HASH160(key) is put into the P2WSH template (a P2WPKH script called p2wsh)
+DevWshFromKey(r) == r.route = "pubkey" /\ r.st = "p2wsh" /\ r.obs.lock = LockT(Wit(0, r.h))
 
 JFwd(r) ==
     LET a == DecodeAddr(r.a0)
@@ -186,12 +230,16 @@ JFwd(r) ==
                             ELSE IF DevV1Plus20(r, D) THEN "witness-v1plus-20byte-paid-as-p2wpkh"
                             ELSE IF DevHexFwd(r) THEN "hex-text-payload-unhexlified"
                             ELSE IF DevUncompressed(r) THEN "uncompressed-address-query-switches-key"
-                            ELSE IF DevNestedObject(r, D) THEN "nested-segwit-address-object-paid-as-p2wpkh" ELSE "", Lock(D))
+                            ELSE IF DevNestedObject(r, D) THEN "nested-segwit-address-object-paid-as-p2wpkh"
+                            ELSE IF DevNestedRequest(r, D) THEN "nested-segwit-request-paid-as-inner-program"
+                            ELSE IF DevWshFromKey(r) THEN "p2wsh-from-public-key-uses-hash160" ELSE "", Lock(D))
     ELSE IF Standard(D) /\ o.type # TypeName(D) THEN Bad("script-type", "", <<>>)
     ELSE IF ~Standard(D) /\ o.type \in LegacyFour THEN Bad("script-type", "", <<>>)
     ELSE IF o.hash # D.p THEN Bad("public-hash", IF DevHexFwd(r) THEN "hex-text-payload-unhexlified" ELSE "", D.p)
-    ELSE IF o.addr # r.a0 THEN Bad("address", IF DevHexFwd(r) THEN "hex-text-payload-unhexlified" ELSE "", r.a0)
-    ELSE Ok
+    ELSE IF o.addr # r.a0 THEN Bad("address", IF DevHexFwd(r) THEN "hex-text-payload-unhexlified"
+                                              ELSE IF OddSize(D) /\ o.addr = <<>> THEN "bech32-encoder-misreads-odd-size-program"
+                                              ELSE "", r.a0)
+    ELSE ViewsAndRoundTrip(o, D)
 
 \* ---- reverse direction
 JRev(r) ==
@@ -227,7 +275,7 @@ JRev(r) ==
           ELSE IF o.hash # D.p THEN Bad("public-hash", "", D.p)
           ELSE IF o.addr # ea THEN Bad("address", IF HexText(D.p) THEN "hex-text-payload-unhexlified" ELSE "", ea)
           ELSE IF o.lock # r.s THEN Bad("lock-script", "", r.s)
-          ELSE Ok)
+          ELSE ViewsAndRoundTrip(o, D))
     ELSE IF ~o.ok THEN Ok                       \* refusing a script that is not standard is allowed
     ELSE IF D # NoDest                          \* valid witness program of a future version / size
     THEN (IF o.type \in LegacyFour THEN Bad("script-type", "", ea)
@@ -236,7 +284,7 @@ JRev(r) ==
           ELSE IF o.addr # <<>> /\ o.hash # D.p THEN Bad("public-hash", "", D.p)
           ELSE IF o.type = "p2tr" /\ o.witver # D.v THEN Bad("witness-version", "", <<D.v>>)
           ELSE IF o.lock # r.s THEN Bad("lock-script", "", r.s)
-          ELSE Ok)
+          ELSE ViewsAndRoundTrip(o, D))
     ELSE IF o.type \in StandardNames \/ o.addr # <<>>
     THEN Bad("nonstandard-script-reported-as-standard",
              IF devNM THEN "nonminimal-push-classified-standard"
